@@ -39,6 +39,96 @@ def _alarm(signum, frame):
 
 
 def _work(item):
+    """every case runs in a forked child of the pool worker: a crash of the interpreter (the real kernels do
+    pointer arithmetic through as_strided; on object arrays a wild read is a segfault) or a hang inside C code
+    is then an outcome of that one case, not of the whole check."""
+    import select
+    modname, spec, limit = item
+    r, w = os.pipe()
+    pid = os.fork()
+    if pid == 0:
+        os.close(r)
+        code = 0
+        try:
+            res = _work_inner(item)
+            data = json.dumps(res, default=str).encode()
+        except BaseException as e:  # noqa: BLE001
+            data = json.dumps({"sig": json.dumps(spec), "status": "harness", "inconclusive": ["worker error: %r" % (e,)],
+                               "violations": [], "spec": spec, "module": modname}).encode()
+            code = 3
+        try:
+            off = 0
+            while off < len(data):
+                off += os.write(w, data[off:off + 65536])
+        finally:
+            os._exit(code)
+    os.close(w)
+    chunks = []
+    deadline = time.time() + limit + 60
+    timed_out = False
+    while True:
+        left = deadline - time.time()
+        if left <= 0:
+            timed_out = True
+            break
+        rd, _, _ = select.select([r], [], [], min(left, 5.0))
+        if rd:
+            b = os.read(r, 1 << 20)
+            if not b:
+                break
+            chunks.append(b)
+    os.close(r)
+    if timed_out:
+        try:
+            os.kill(pid, signal.SIGKILL)
+        except OSError:
+            pass
+    _, status = os.waitpid(pid, 0)
+    data = b"".join(chunks)
+    if data and not timed_out:
+        try:
+            return json.loads(data.decode())
+        except ValueError:
+            pass
+    base = {"sig": json.dumps(spec, sort_keys=True), "violations": [], "paths": 0, "queries": 0, "solver_s": 0, "obligations": 0,
+            "discharged": 0, "validated": 0, "funcs": [], "twins_sat": 0, "runs": 0, "goals": 0, "spec": spec,
+            "module": modname, "wall_s": 0}
+    if timed_out:
+        base.update(status="inconclusive", inconclusive=["hard time limit: case killed after %ds" % (limit + 60)])
+        return base
+    sig = os.WTERMSIG(status) if os.WIFSIGNALED(status) else None
+    return _after_crash(base, modname, spec, sig)
+
+
+def _after_crash(base, modname, spec, sig):
+    """the symbolic run killed the interpreter (signal).  Replay a sampled point on the plain code, where the same
+    wild read returns foreign numbers instead of crashing, and let the case's oracle judge."""
+    from .symnum import engine as E
+    why = "the symbolic run of the real code crashed the interpreter (signal %s)" % sig
+    try:
+        mod = importlib.import_module(modname)
+        case = mod.build(spec)
+        base["sig"] = case.sig
+        import random as _r
+        env = E.Env("plain64", point={}, rng=_r.Random(7))
+        env.autosample = True
+        try:
+            case.run(env)
+        except Exception:  # noqa: BLE001
+            pass
+        cand = {"label": "interpreter crash", "kind": "value", "detail": why, "point": dict(env.point)}
+        ok, detail = E._replay(case, cand, any(k.startswith("rng") for k in env.point))
+        if ok:
+            cand["replay"] = detail
+            base.update(status="violation", violations=[cand], obligations=1)
+            return base
+        base.update(status="inconclusive", inconclusive=[why + "; plain replay at a sampled point: " + detail])
+    except Exception as e:  # noqa: BLE001
+        base.update(status="inconclusive", inconclusive=[why + "; replay failed: %r" % (e,)])
+    return base
+
+
+def _work_inner(item):
     modname, spec, limit = item
     from .symnum import engine as E
     from .symnum import array as ar
